@@ -255,12 +255,19 @@ func runC16Conc(c c16Case) evid.Outcome {
 		aux.Add(1)
 		go func() {
 			defer aux.Done()
-			gone := map[int]bool{}
 			time.Sleep(2 * time.Millisecond)
 			for {
 				for _, i := range c.Stalled {
-					if conn := w.conn(i); conn != nil && !gone[i] {
-						gone[i] = true
+					// (a hang-up sent before the hub has processed the registration is ignored by
+					// the hub, so the client hangs up whenever it finds itself registered)
+					conn := w.conn(i)
+					registered := false
+					if conn != nil {
+						w.hub.connMu.RLock()
+						registered = w.hub.connections[conn]
+						w.hub.connMu.RUnlock()
+					}
+					if registered {
 						select {
 						case w.hub.unregister <- conn:
 						case <-stop:
@@ -414,6 +421,8 @@ func (w *c16Conc) final() {
 	// agree, or until the budget of a non-blocking operation is used up (then the checks below
 	// report what persists).
 	agree := func() bool {
+		known := 0
+		defer func() { _ = known }()
 		for _, conn := range w.conns {
 			if conn == nil {
 				continue
@@ -421,6 +430,9 @@ func (w *c16Conc) final() {
 			h.connMu.RLock()
 			isReg := h.connections[conn]
 			h.connMu.RUnlock()
+			if isReg {
+				known++
+			}
 			for r := 0; r < c.Rooms; r++ {
 				room, ok := h.roomManager.GetRoom(c16Room(r))
 				has := ok && room.Has(conn)
@@ -429,7 +441,7 @@ func (w *c16Conc) final() {
 				}
 			}
 		}
-		return true
+		return h.GetConnectionCount() == known
 	}
 	for deadline := time.Now().Add(c16W()); !agree() && time.Now().Before(deadline); {
 		time.Sleep(200 * time.Microsecond)
